@@ -100,7 +100,7 @@ def cargo_layouts(ck):
     open(os.path.join(d3, "src", "main.rs"), "w").write('fn main() { println!("BEGIN\\n{}\\nEND", lib_ext::fail_here()); }\n')
     layouts.append(("path-dependency-outside-the-workspace", d3, ["run", "-q"], None))
     if ck.tier == "quick":
-        layouts = [l for l in layouts if l[0] in ("single-package", "workspace-member", "nested-member", "integration-test-of-a-member", "path-dependency-outside-the-workspace", "package-dir-named-src")]
+        layouts = [l for l in layouts if l[0] in ("single-package", "workspace-member", "nested-member", "integration-test-of-a-member", "path-dependency-outside-the-workspace", "package-dir-named-src", "member-named-like-the-workspace-dir")]
     env = dict(ENV)
     env["CARGO_TARGET_DIR"] = tdir
     dist = {}
@@ -118,7 +118,7 @@ def cargo_layouts(ck):
                           dict(layout=name, cargo=" ".join(args), directory=cwd.replace(base, "<scratch>"), message=msg[:800]))
         ck.corr_record("T3 crate layouts built by cargo (single package, workspace members at several depths, run from different directories, integration test, example, root package with members, path dependency outside the workspace, package directory named `src`): the report must show the source line",
                        len(layouts), len(layouts), 0, dist, samples=[dict(layout=layouts[0][0])], exhaustive=True,
-                       rule="fixed list of layouts (6 in the quick tier, %d in the thorough tier), each built and run by cargo; CARGO_MANIFEST_DIR and file!() are whatever cargo and rustc provide" % (len(layouts) if ck.tier != "quick" else 13))
+                       rule="fixed list of layouts (7 in the quick tier, %d in the thorough tier), each built and run by cargo; CARGO_MANIFEST_DIR and file!() are whatever cargo and rustc provide" % (len(layouts) if ck.tier != "quick" else 13))
     finally:
         shutil.rmtree(base, ignore_errors=True)
 
